@@ -126,6 +126,26 @@ REQS = [
     ("arr_of_obj", "L.arr_of_obj"),
     ("arr_of_obj_ext", "[o {i: 10} for o in L.arr_of_obj][1].sq"),
     ("arr_of_obj_rm", "[std.objectRemoveKey(o, 'i') for o in L.arr_of_obj][0]"),
+    # field names that are computed at run time, next to requests that mention the same names literally: whether an earlier
+    # request has already made the state know a string must not matter
+    ("dyn_has", "std.objectHas(L.counted, 'abs' + 'ent')"),
+    ("dyn_has_all", "std.objectHasAll(L.counted, 'abs' + 'ent')"),
+    ("dyn_in", "('abs' + 'ent') in L.counted"),
+    ("dyn_rm", "std.objectRemoveKey(L.counted, 'abs' + 'ent')"),
+    ("dyn_rm_present", "std.objectRemoveKey(L.counted, 'a' + '')"),
+    ("dyn_index", "L.counted['abs' + 'ent']"),
+    ("dyn_get", "std.get(L.counted, 'abs' + 'ent', 7)"),
+    ("dyn_insuper", "(L.counted + {q: ('abs' + 'ent') in super}).q"),
+    ("dyn_superidx", "(L.counted + {q: super['abs' + 'ent']}).q"),
+    ("dyn_field_def", "(L.counted + {['abs' + 'ent']: 5}).absent"),
+    ("dyn_mergepatch", "std.mergePatch(L.counted, {['abs' + 'ent']: null})"),
+    ("lit_absent", "local o = L.counted; {absent: 1}.absent"),
+    ("lit_absent_str", "local o = L.counted; 'absent'"),
+    ("lit_absent_field", "(L.counted + {absent: 9}).absent"),
+    ("dyn_format", "'%(abs)s' % (L.counted + {['a' + 'bs']: 1})"),
+    ("dyn_extvar", "local o = L.counted; std.extVar('e' + '')"),
+    ("dyn_extvar_missing", "local o = L.counted; std.extVar('no' + 'such')"),
+    ("lit_nosuch", "local o = L.counted; 'nosuch'"),
     # eval_call requests: (function, positional arguments, named arguments), each loaded as its own thunk
     ("call_fn", ("L.fn", ["1"], [])),
     ("call_fn_named", ("L.fn", [], [("b", "2"), ("a", "L.v")])),
